@@ -66,6 +66,21 @@ def gen(ctx):
             exp = expected_limit(expected_limit(data, a), b)
             cases.append(Case('chain-%d-%d-%d' % (ln, a, b), STAR, [('json', None), ('limit', a), ('limit', b)], lines,
                               {'chain', 'nt'}, note={'expect_ids': [r['id'] for r in exp]}))
+    # a tail limit followed by TWO further row operators (its rows are released at end of input and must still pass the
+    # later operators in the order written)
+    for ln in (5, 8):
+        data = rows(ln, rng)
+        lines = [jline(r) for r in data]
+        for a, b, c in itertools.product((-4, -3), (1, 2, 3, -2), (-1, 1, 2)):
+            exp = expected_limit(expected_limit(expected_limit(data, a), b), c)
+            cases.append(Case('tail3-%d-%d-%d-%d' % (ln, a, b, c), STAR, [('json', None), ('limit', a), ('limit', b), ('limit', c)], lines,
+                              {'chain', 'nt'}, note={'expect_ids': [r['id'] for r in exp]}))
+        for a, x, c in itertools.product((-4, -3), (0, 2), (1, -1, 2)):
+            kept = [r for r in expected_limit(data, a) if r['id'] > data[0]['id'] + x]
+            exp = expected_limit(kept, c)
+            cases.append(Case('tailw-%d-%d-%d-%d' % (ln, a, x, c), STAR,
+                              [('json', None), ('limit', a), ('where', ('cmp', 'gt', col('id'), lit(data[0]['id'] + x))), ('limit', c)], lines,
+                              {'chain', 'nt'}, note={'expect_ids': [r['id'] for r in exp]}))
     if not quick:
         for ln in range(0, 6):
             data = rows(ln, rng)
